@@ -81,6 +81,11 @@ impl<R: BufRead> StreamDecryptor<R> {
         key: &[u8],
         source: R,
     ) -> Result<Self, Error> {
+        // There are n chunks, n auth tags + 1 final auth tag
+        let Some(aead_tag_size) = aead.tag_size() else {
+            return Err(UnsupporedAlgorithmSnafu { alg: aead }.build());
+        };
+
         // Initial key material is the session key.
         let ikm = key;
         let chunk_size_expanded: usize = chunk_size
@@ -89,11 +94,6 @@ impl<R: BufRead> StreamDecryptor<R> {
             .expect("chunk size is smaller");
 
         let (info, message_key, nonce) = aead_setup_rfc9580(sym_alg, aead, chunk_size, salt, ikm);
-
-        // There are n chunks, n auth tags + 1 final auth tag
-        let Some(aead_tag_size) = aead.tag_size() else {
-            return Err(UnsupporedAlgorithmSnafu { alg: aead }.build());
-        };
 
         debug_assert_eq!(
             aead_tag_size, AEAD_TAG_SIZE,
